@@ -1030,6 +1030,17 @@ func (w *World) run() {
 		}
 		wg.Wait()
 	}
+	for si, st := range sc.After {
+		switch st.Op {
+		case "sleep":
+			time.Sleep(min(time.Duration(st.DurNs), maxSleep))
+		case "req":
+			if c := w.doReq(rt, len(sc.Steps)+1+si, st.Req); c != nil {
+				cancels = append(cancels, c)
+			}
+		}
+		synctest.Wait()
+	}
 	// bodies the client held back are read now (everything the cache did in between must not
 	// have touched them)
 	for _, ex := range obs.Exchanges {
